@@ -438,6 +438,12 @@ func rpcRefreshContract(ctx context.Context, t TransportClient, tp TxPool, signe
 		return RPCRefreshContractResult{}, clientErrf("expected renewal resolution")
 	}
 
+	// check for no funny business
+	if renewalTxn.ID() != hostRenewalTxn.ID() {
+		signer.ReleaseInputs([]types.V2Transaction{renewalTxn})
+		return RPCRefreshContractResult{}, clientErrf("transaction ID mismatch")
+	}
+
 	// validate the host signature
 	if !existing.HostPublicKey.VerifyHash(renewalSigHash, hostRenewal.HostSignature) {
 		signer.ReleaseInputs([]types.V2Transaction{renewalTxn})
@@ -446,10 +452,13 @@ func rpcRefreshContract(ctx context.Context, t TransportClient, tp TxPool, signe
 		signer.ReleaseInputs([]types.V2Transaction{renewalTxn})
 		return RPCRefreshContractResult{}, clientErrf("invalid host contract signature")
 	}
+	// return the locally built contract with the signature that was verified
+	// over it, not the host's copy of it
+	renewal.NewContract.HostSignature = hostRenewal.NewContract.HostSignature
 	return RPCRefreshContractResult{
 		Contract: ContractRevision{
 			ID:       params.ContractID.V2RenewalID(),
-			Revision: hostRenewal.NewContract,
+			Revision: renewal.NewContract,
 		},
 		RenewalSet: TransactionSet{
 			Basis:        hostTransactionSetResp.Basis,
@@ -1333,6 +1342,12 @@ func RPCRenewContract(ctx context.Context, t TransportClient, tp TxPool, signer 
 		return RPCRenewContractResult{}, clientErrf("expected renewal resolution")
 	}
 
+	// check for no funny business
+	if renewalTxn.ID() != hostRenewalTxn.ID() {
+		signer.ReleaseInputs([]types.V2Transaction{renewalTxn})
+		return RPCRenewContractResult{}, clientErrf("transaction ID mismatch")
+	}
+
 	// validate the host signature
 	if !existing.HostPublicKey.VerifyHash(renewalSigHash, hostRenewal.HostSignature) {
 		signer.ReleaseInputs([]types.V2Transaction{renewalTxn})
@@ -1341,10 +1356,13 @@ func RPCRenewContract(ctx context.Context, t TransportClient, tp TxPool, signer 
 		signer.ReleaseInputs([]types.V2Transaction{renewalTxn})
 		return RPCRenewContractResult{}, clientErrf("invalid host contract signature")
 	}
+	// return the locally built contract with the signature that was verified
+	// over it, not the host's copy of it
+	renewal.NewContract.HostSignature = hostRenewal.NewContract.HostSignature
 	return RPCRenewContractResult{
 		Contract: ContractRevision{
 			ID:       params.ContractID.V2RenewalID(),
-			Revision: hostRenewal.NewContract,
+			Revision: renewal.NewContract,
 		},
 		RenewalSet: TransactionSet{
 			Basis:        hostTransactionSetResp.Basis,
